@@ -11,7 +11,7 @@ HmE(n, t) == S!HmE(n, t)  Hm(n, t) == S!Hm(n, t)  If(fl, t) == S!If(fl, t)  IfBi
 BinTree(t) == S!BinTree(t)  HmS(n, t) == S!HmS(n, t)
 Lite(t) == S!Lite(t)  HmAug(n, t, x) == S!HmAug(n, t, x)  HmAugE(n, t, x) == S!HmAugE(n, t, x)  RefAny == S!RefAny
 RefPick(fl, t0, t1) == S!RefPick(fl, t0, t1)  F(name, t) == S!F(name, t)  Alt(cn, tag, fs) == S!Alt(cn, tag, fs)
-AltC(cn, tag, fs, cons) == S!AltC(cn, tag, fs, cons)
+AltC(cn, tag, fs, cons) == S!AltC(cn, tag, fs, cons)  URange(n, lo, hi) == S!URange(n, lo, hi)  Pick(fl, t0, t1) == S!Pick(fl, t0, t1)
 Tag32(a, b, c, d) == S!BytesToBits(<<a, b, c, d>>)
 Tag8(a) == S!BytesToBits(<<a>>)
 
@@ -210,6 +210,35 @@ TheSchema == [
   BlockLimits |-> << Alt("block_limits", Tag8(93), << F("bytes", Named("ParamLimits")), F("gas", Named("ParamLimits")), F("lt_delta", Named("ParamLimits")) >>) >>,
   MsgForwardPrices |-> << Alt("msg_forward_prices", Tag8(234), << F("lump_price", U(64)), F("bit_price", U(64)), F("cell_price", U(64)),
         F("ihr_price_factor", U(32)), F("first_frac", U(16)), F("next_frac", U(16)) >>) >>,
+  \* wfmt_basic#1 vm_version:int32 vm_mode:uint64 = WorkchainFormat 1;  wfmt_ext#0 min_addr_len:(## 12) max_addr_len:(## 12) addr_len_step:(## 12)
+  \*   { min_addr_len >= 64 } { min_addr_len <= max_addr_len } { max_addr_len <= 1023 } { addr_len_step <= 1023 } workchain_type_id:(## 32) { >= 1 } = WorkchainFormat 0;
+  WorkchainFormat1 |-> << Alt("wfmt_basic", <<0,0,0,1>>, << F("vm_version", I(32)), F("vm_mode", U(64)) >>) >>,
+  WorkchainFormat0 |-> << AltC("wfmt_ext", <<0,0,0,0>>, << F("min_addr_len", URange(12, 64, 1023)), F("max_addr_len", URange(12, 64, 1023)),
+        F("addr_len_step", URange(12, 0, 1023)), F("workchain_type_id", UPos(32)) >>, << <<"min_addr_len", "max_addr_len">> >>) >>,
+  WcSplitMergeTimings |-> << Alt("wc_split_merge_timings", <<0,0,0,0>>, << F("split_merge_delay", U(32)), F("split_merge_interval", U(32)),
+        F("min_split_merge_interval", U(32)), F("max_split_merge_delay", U(32)) >>) >>,
+  \* workchain#a6 / workchain_v2#a7 ... { actual_min_split <= min_split } basic:(## 1) ... flags:(## 13) { flags = 0 } ... format:(WorkchainFormat basic)
+  WorkchainDescr |-> <<
+     AltC("workchain", Tag8(166), << F("enabled_since", U(32)), F("actual_min_split", U(8)), F("min_split", U(8)), F("max_split", U(8)),
+          F("basic", Bool), F("active", Bool), F("accept_msgs", Bool), F("flags", Zero(13)), F("zerostate_root_hash", Bits(256)),
+          F("zerostate_file_hash", Bits(256)), F("version", U(32)), F("format", Pick("basic", Named("WorkchainFormat0"), Named("WorkchainFormat1"))) >>,
+          << <<"actual_min_split", "min_split">> >>),
+     AltC("workchain_v2", Tag8(167), << F("enabled_since", U(32)), F("actual_min_split", U(8)), F("min_split", U(8)), F("max_split", U(8)),
+          F("basic", Bool), F("active", Bool), F("accept_msgs", Bool), F("flags", Zero(13)), F("zerostate_root_hash", Bits(256)),
+          F("zerostate_file_hash", Bits(256)), F("version", U(32)), F("format", Pick("basic", Named("WorkchainFormat0"), Named("WorkchainFormat1"))),
+          F("split_merge_timings", Named("WcSplitMergeTimings")) >>, << <<"actual_min_split", "min_split">> >>) >>,
+  ConsensusConfig |-> <<
+     Alt("consensus_config", Tag8(214), << F("round_candidates", UPos(32)), F("next_candidate_delay_ms", U(32)), F("consensus_timeout_ms", U(32)),
+          F("fast_attempts", U(32)), F("attempt_duration", U(32)), F("catchain_max_deps", U(32)), F("max_block_bytes", U(32)), F("max_collated_bytes", U(32)) >>),
+     Alt("consensus_config_new", Tag8(215), << F("flags", Zero(7)), F("new_catchain_ids", Bool), F("round_candidates", UPos(8)), F("next_candidate_delay_ms", U(32)),
+          F("consensus_timeout_ms", U(32)), F("fast_attempts", U(32)), F("attempt_duration", U(32)), F("catchain_max_deps", U(32)), F("max_block_bytes", U(32)),
+          F("max_collated_bytes", U(32)) >>),
+     Alt("consensus_config_v3", Tag8(216), << F("flags", Zero(7)), F("new_catchain_ids", Bool), F("round_candidates", UPos(8)), F("next_candidate_delay_ms", U(32)),
+          F("consensus_timeout_ms", U(32)), F("fast_attempts", U(32)), F("attempt_duration", U(32)), F("catchain_max_deps", U(32)), F("max_block_bytes", U(32)),
+          F("max_collated_bytes", U(32)), F("proto_version", U(16)) >>),
+     Alt("consensus_config_v4", Tag8(217), << F("flags", Zero(7)), F("new_catchain_ids", Bool), F("round_candidates", UPos(8)), F("next_candidate_delay_ms", U(32)),
+          F("consensus_timeout_ms", U(32)), F("fast_attempts", U(32)), F("attempt_duration", U(32)), F("catchain_max_deps", U(32)), F("max_block_bytes", U(32)),
+          F("max_collated_bytes", U(32)), F("proto_version", U(16)), F("catchain_max_blocks_coeff", U(32)) >>) >>,
   \* ---- output actions
   \* libref_hash$0 lib_hash:bits256 = LibRef;  libref_ref$1 library:^Cell = LibRef;
   LibRef |-> << Alt("libref_hash", <<0>>, << F("lib_hash", Bits(256)) >>), Alt("libref_ref", <<1>>, << F("library", RefCell) >>) >>,
